@@ -231,10 +231,10 @@ pub fn run_case(id: &str, limit: u32, rounds: usize, first_kind: usize, rng: &mu
             }
         }
         let _ = writeln!(trace, "END {} {}", victim, kind);
-        if kind >= 6 || kind == 1 || kind == 2 {
+        if kind >= 6 || kind == 1 || kind == 2 || kind == 4 {
             // the server must have let go of it on its own (idle timeout; quit and quitq, which
-            // the server ends itself): keep our end open, so that closing it cannot be what
-            // frees the slot
+            // the server ends itself; a protocol error, after which it hangs up): keep our end
+            // open, so that closing it cannot be what frees the slot
             if let Some(cl) = conns.remove(&victim) {
                 zombies.push(cl);
             }
